@@ -234,8 +234,27 @@ func (nd *node) vcSync(rng *rand.Rand) {
 		if !w.sleepUntil(time.Now().Add(msDur(d))) {
 			return
 		}
-		w.r.Count("resign/sync_second_submissions", 1)
-		submit(w.p.SyncChoice2[nd.idx], "resign-sync-messages")
+		resubmit := func(counter string) bool {
+			w.resignMu.RLock()
+			defer w.resignMu.RUnlock()
+			if w.resignClosed {
+				w.r.Count("resign/skipped_because_duties_are_about_to_expire", 1)
+				return false
+			}
+			w.r.Count(counter, 1)
+			submit(w.p.SyncChoice2[nd.idx], "resign-sync-messages")
+
+			return true
+		}
+		if !resubmit("resign/sync_second_submissions") {
+			return
+		}
+		// a VC whose submission was answered with an error retries it (up to twice, shortly after)
+		for k := rng.Intn(3); k > 0; k-- {
+			if !w.sleepUntil(time.Now().Add(msDur(1+rng.Intn(20)))) || !resubmit("resign/sync_retries_of_the_refused_submission") {
+				return
+			}
+		}
 	}
 }
 
@@ -255,8 +274,26 @@ func (nd *node) vcResignAttestations(rng *rand.Rand) {
 		}
 		atts = append(atts, att)
 	}
-	w.r.Count("resign/attestation_second_submissions", 1)
-	w.mon.vapiResult(nd.idx, "resign-attestations", nd.vapi.SubmitAttestations(w.ctx, &eth2api.SubmitAttestationsOpts{Attestations: atts}))
+	resubmit := func(counter string) bool {
+		w.resignMu.RLock()
+		defer w.resignMu.RUnlock()
+		if w.resignClosed {
+			w.r.Count("resign/skipped_because_duties_are_about_to_expire", 1)
+			return false
+		}
+		w.r.Count(counter, 1)
+		w.mon.vapiResult(nd.idx, "resign-attestations", nd.vapi.SubmitAttestations(w.ctx, &eth2api.SubmitAttestationsOpts{Attestations: atts}))
+
+		return true
+	}
+	if !resubmit("resign/attestation_second_submissions") {
+		return
+	}
+	for k := rng.Intn(3); k > 0; k-- { // retries of the same (refused) submission
+		if !w.sleepUntil(time.Now().Add(msDur(1+rng.Intn(20)))) || !resubmit("resign/attestation_retries_of_the_refused_submission") {
+			return
+		}
+	}
 }
 
 func (w *world) exitEpoch(i int) uint64 { return w.epoch + uint64(w.p.ExitEpochOff[i]) }
